@@ -558,6 +558,9 @@ func genWorkflow(t *rapid.T, cfg GenCfg) *Spec {
 		if node.Kind == "lambda" {
 			decorate(t, &node, cfg)
 		}
+		if node.Kind == "lambda" && mapped && node.InputKey == "" && pct(t, 12, "staticValue") {
+			node.Static = "sv"
+		}
 		if node.Kind != "pass" && pct(t, 15, "outputKey") {
 			node.OutputKey = key
 		}
